@@ -345,7 +345,7 @@ def execute(case, keep_text=False, after_fit=None):
                                        model=model,
                                        cluster=cfg.get('poly_cluster', True),
                                        sigma_fraction=cfg['sigma_fraction'])
-        S.configure_optimizer(opt, fit, derived)
+        S.configure_optimizer(opt, fit, derived, model=model, observed=obs)
         opts[r] = opt
         if r == 0:
             pyrandom.seed(cfg['pyseed'])
